@@ -28,6 +28,9 @@ type AssertionTimes struct {
 	NotAfter  int64    `json:"not_after"`
 	Confs     []int64  `json:"confs"`
 	Methods   []string `json:"methods,omitempty"` // per confirmation: "" = bearer | hok | sv
+	// ConfNB: every SubjectConfirmationData also carries the optional NotBefore attribute, placed 72 h in the past
+	// (valid under every reading); the NotOnOrAfter bound of that confirmation holds regardless.
+	ConfNB bool `json:"conf_not_before,omitempty"`
 	Encrypted bool     `json:"encrypted,omitempty"`
 }
 
@@ -61,6 +64,9 @@ type Case struct {
 	LocalMin int `json:"local_min,omitempty"`
 	// Noise: options of the SP that concern only what it sends (see spkit.Noise); the verdict must not depend on them
 	Noise uint64 `json:"noise,omitempty"`
+	// ArtSigned (Entry "artifact"): the carrying ArtifactResponse is itself genuinely signed by the IdP and fresh;
+	// the windows of the Response and assertion inside hold regardless.
+	ArtSigned bool `json:"art_signed,omitempty"`
 }
 
 const (
@@ -163,7 +169,13 @@ func (c *Case) build() built {
 			if ci < len(at.Methods) {
 				method = map[string]string{"hok": "urn:oasis:names:tc:SAML:2.0:cm:holder-of-key", "sv": "urn:oasis:names:tc:SAML:2.0:cm:sender-vouches"}[at.Methods[ci]]
 			}
-			a.Confirmations = append(a.Confirmations, forge.Confirmation{Method: method, Recipient: forge.S(spkit.SPACS), InResponseTo: forge.S("id-req"), NotOnOrAfter: forge.S(s)})
+			cf := forge.Confirmation{Method: method, Recipient: forge.S(spkit.SPACS), InResponseTo: forge.S("id-req"), NotOnOrAfter: forge.S(s)}
+			if at.ConfNB {
+				// always in the library's own RFC 3339 form: this optional attribute is not one of the property's
+				// instants and is read by time.Time's own parser, which does not admit the zone-less form
+				cf.NotBefore = forge.S(forge.T(now.Add(-time.Duration(far)).Truncate(time.Millisecond)))
+			}
+			a.Confirmations = append(a.Confirmations, cf)
 			eff.Confs = append(eff.Confs, margin(e, true, skew))
 		}
 		if c.Layout == "assert" || c.Layout == "both" {
@@ -224,7 +236,11 @@ func check(c Case) pbt.Result {
 		if err != nil {
 			return pbt.Result{Err: "harness: " + err.Error()}
 		}
-		env, err := forge.BuildArtifact(&forge.ArtifactSpec{ID: "id-art", InResponseTo: forge.S("id-artreq"), IssueInstant: forge.T(c.now().Add(time.Hour)), Issuer: forge.S(spkit.IDPEntity), Status: []string{forge.StatusOK}}, el)
+		as := &forge.ArtifactSpec{ID: "id-art", InResponseTo: forge.S("id-artreq"), IssueInstant: forge.T(c.now().Add(time.Hour)), Issuer: forge.S(spkit.IDPEntity), Status: []string{forge.StatusOK}}
+		if c.ArtSigned {
+			as.Sign = &forge.SignSpec{Key: "idp"}
+		}
+		env, err := forge.BuildArtifact(as, el)
 		if err != nil {
 			return pbt.Result{Err: "harness: " + err.Error()}
 		}
@@ -251,6 +267,15 @@ func check(c Case) pbt.Result {
 	}
 	if c.LocalMin != 0 {
 		res.Classes = append(res.Classes, "process-local-zone-not-utc")
+	}
+	if c.Entry == "artifact" && c.ArtSigned {
+		res.Classes = append(res.Classes, "artifact-response-itself-signed")
+	}
+	for _, at := range c.Asserts {
+		if at.ConfNB && len(at.Confs) > 0 {
+			res.Classes = append(res.Classes, "confirmation-data-with-not-before")
+			break
+		}
 	}
 	// model
 	anyInside, allOutside := false, true
@@ -407,6 +432,7 @@ func gen(t *rapid.T) Case {
 		c.SubNs = rapid.Int64Range(-499_999, 499_999).Draw(t, "subns")
 	}
 	c.NoDest = c.Layout == "assert" && rapid.IntRange(0, 2).Draw(t, "nodest") == 0
+	c.ArtSigned = c.Entry == "artifact" && rapid.Bool().Draw(t, "artsigned")
 	c.AllowIDP = rapid.IntRange(0, 3).Draw(t, "allowidp") == 0
 	if rapid.IntRange(0, 2).Draw(t, "othertrust") == 0 {
 		c.Trust = rapid.SampledFrom(spkit.TrustsIDP).Draw(t, "trust")
@@ -442,6 +468,7 @@ func gen(t *rapid.T) Case {
 			a.Confs = append(a.Confs, genMargin(t, "conf"))
 			a.Methods = append(a.Methods, rapid.SampledFrom([]string{"", "", "", "hok", "sv"}).Draw(t, "method"))
 		}
+		a.ConfNB = rapid.IntRange(0, 3).Draw(t, "confnb") == 0
 		c.Asserts = append(c.Asserts, a)
 	}
 	return c
@@ -464,7 +491,7 @@ func enumNoInstant(_ string, emit func(Case)) {
 							continue
 						}
 						for _, hooks := range []string{"", "both"} {
-							emit(Case{DelayNs: tol[0], SkewNs: tol[1], NowSec: fix.Epoch.Unix() + int64(ti), Layout: layout, Entry: entry, Lex: "lib", Resp: far, Asserts: []AssertionTimes{good()}, RespInstant: ri, AsrtInstant: ai, Hooks: hooks, AllowIDP: hooks != ""})
+							emit(Case{DelayNs: tol[0], SkewNs: tol[1], NowSec: fix.Epoch.Unix() + int64(ti), Layout: layout, Entry: entry, Lex: "lib", Resp: far, Asserts: []AssertionTimes{good()}, RespInstant: ri, AsrtInstant: ai, Hooks: hooks, AllowIDP: hooks != "", ArtSigned: entry == "artifact" && hooks != ""})
 						}
 					}
 				}
@@ -525,10 +552,11 @@ func enumLattice(tier string, emit func(Case)) {
 										c.AllowIDP = (idx/stride)%3 == 1
 										c.Hooks = []string{"", "reqid", "", "audience", "both"}[(idx/stride)%5]
 										c.LocalMin = []int{0, 0, -300, 540, 0, 60, -720}[(idx/stride)%7]
+										c.ArtSigned = c.Entry == "artifact" && (idx/stride)%4 < 2
 										if c.LocalMin != 0 && (idx/stride)%2 == 0 {
 											c.Lex = "zoneless"
 										}
-										varied := AssertionTimes{Issue: is, NotBefore: nb, NotAfter: na, Confs: []int64{cf}, Encrypted: enc}
+										varied := AssertionTimes{Issue: is, NotBefore: nb, NotAfter: na, Confs: []int64{cf}, Encrypted: enc, ConfNB: (idx/stride)%11 < 4}
 										good := AssertionTimes{Issue: far, NotBefore: far, NotAfter: far, Confs: []int64{far}, Encrypted: enc}
 										switch shape {
 										case "1conf":
